@@ -714,7 +714,9 @@ Definition parse_matrix (fuel : nat) (st : nx_state) (toks : list tok)
   end.
 
 (* _parse_characters_data_block, entered after the CHARACTERS / DATA token.  The result lists
-   one entry per MATRIX statement. *)
+   one entry per MATRIX statement.  Fuel: every iteration of every loop consumes at least one
+   token, so the number of tokens bounds the iterations of each loop; the statement loops are
+   given the fuel that is left for the block loop (never less than the tokens that remain). *)
 Fixpoint block_loop (fuel : nat) (st : nx_state) (done : list block_result) (toks : list tok)
   : res (nx_state * list block_result * list tok) :=
   match fuel with
@@ -729,20 +731,20 @@ Fixpoint block_loop (fuel : nat) (st : nx_state) (done : list block_result) (tok
         do x <- parse_title (x_cap st) r ;;
         let (title, r') := x in block_loop f (set_title st (Some title)) done r'
       else if text_eqb t kw_LINK then
-        do x <- parse_link (S (length r)) (x_cap st) None
+        do x <- parse_link f (x_cap st) None
                            (match next_tok (x_cap st) r with Some (u, _) => Some (ucase u) | None => None end)
                            (match next_tok (x_cap st) r with Some (_, q) => q | None => [] end) ;;
         let (lk, r') := x in block_loop f (set_link st lk) done r'
       else if text_eqb t kw_DIMENSIONS then
-        do x <- parse_dimensions (S (length r)) st r ;;
+        do x <- parse_dimensions f st r ;;
         let (st', r') := x in block_loop f st' done r'
       else if text_eqb t kw_FORMAT then
         do x <- req_tok (x_cap st) r ;;
         let (u, r1) := x in
-        do y <- parse_format (S (length r)) st (ucase u) r1 ;;
+        do y <- parse_format f st (ucase u) r1 ;;
         let (st', r') := y in block_loop f st' done r'
       else if text_eqb t kw_MATRIX then
-        do x <- parse_matrix (S (length r)) st r ;;
+        do x <- parse_matrix f st r ;;
         let '(st', br, r') := x in block_loop f st' (done ++ [br]) r'
       else if text_eqb t kw_BEGIN then Err ParseErr
       else block_loop f st done r
